@@ -3,6 +3,8 @@ have been observed for a 'held' verdict, and how the evidence is written."""
 from vdriver import Job, NCPU
 
 ENGINES = {
+    'h_pool': dict(tulz=['threading'], spy=True, schedule_sensitive=True, setup_variants=['mon', 'asan'],
+                   kind='seeded owner programs with instrumented tasks on ThreadPool, pthread interposer (delays, park table, quiescence oracle); mon and ASan builds'),
     'h_thread': dict(tulz=['threading'], spy=True, schedule_sensitive=True, setup_variants=['mon', 'asan'],
                      kind='canary callables, dead-stack clobbering, late-start trampoline delays and completion marks for tulz::Thread; mon and ASan builds'),
     'h_file': dict(tulz=['fs'], setup_variants=['asan'], kind='byte-vector + position model for tulz::File in a private directory, cross-checked with std::filesystem, ASan/UBSan'),
@@ -467,3 +469,54 @@ SPECS['C20'] = dict(
                   'stack-use-after-return detection; completion ordering checked through marks written by the callable.',
                   note='Schedules are steered (thread-start delay), not enumerated; trusted: the interposer trampoline, ASan fake-stack detection.',
                   technique='runtime monitoring: canary/identity monitors with injected scheduling delay + ASan stack-use-after-return'))
+
+
+# ----------------------------------------------------------------------------- ThreadPool (C07 C08)
+
+def pool_jobs(prop, quick_plan, thorough_plan, args=()):
+    def mk(tier, seed):
+        jobs = []
+        for vi, (variant, n) in enumerate(quick_plan if tier == 'quick' else thorough_plan):
+            for frm, cnt in split(n, 8):
+                jobs.append(Job('h_pool', variant, pseed(seed, prop, vi), frm, cnt, list(args), label=variant))
+        return jobs
+    return mk
+
+
+POOL_FIELDS = ('programs', 'ops', 'tasksSubmitted', 'tasksRan', 'tasksDropped', 'closureTasks', 'stops', 'clears', 'drains', 'restarts', 'stopsWithRunningTask',
+               'clearsWithRunningTask', 'stopsWithWorkerInPreBlockWindow', 'singleWorkerPrograms', 'maxWorkersSeen', 'delaysCondEntry', 'delaysAfterWake', 'delaysOther',
+               'workerThreadsCreated', 'poolCondWaits')
+POOL_NOTE = ('Schedules are sampled and steered by delays at the pool\'s own mutex/condvar operations, not enumerated; one owner thread, non-expiring workers. '
+             'Trusted: interposer park table, glibc futex semantics for the quiescence verdict.')
+
+
+def pool_evidence(rule):
+    def f(agg, samples, distinct, tier):
+        return cov(agg.get('programs', 0), distinct, rule, samples, observed=pick(agg, *POOL_FIELDS))
+    return f
+
+
+SPECS['C07'] = dict(
+    title='ThreadPool: at most once, destroyed exactly once',
+    jobs=pool_jobs('C07', (('mon', 1600), ('asan', 500)), (('mon', 60000), ('asan', 15000), ('mon-ndebug', 15000))),
+    require={'any': {'programs': 1500, 'tasksRan': 10000, 'tasksDropped': 5000, 'clearsWithRunningTask': 100, 'stopsWithRunningTask': 1000, 'singleWorkerPrograms': 300}},
+    evidence=pool_evidence('case = seeded owner program (4-40 operations over start(Runnable), start(closure [, lvalue]), clear, stop, restart, waitDrain, getters, yield; stop storms) on a fresh pool with maximum '
+                           '1/2/3/4/8 non-expiring workers. Tasks log run entry/exit, worker tid and destruction into records that outlive them; rules: runs <= 1, destroyed exactly once and after run() returned, '
+                           'never destroyed while running (also ASan), tasks with no clear/stop after their submission run before waitDrain returns (a lost task = quiescence deadlock), no run entry stamped after '
+                           'stop() returned, closure copies all destroyed, single worker = submission order. non-trivial = program with a stop and >=2 tasks; distinct = distinct owner programs'),
+    assumptions=['one owner thread calls the pool (intended use)', 'expiry disabled: the property is about non-expiring workers'],
+    manifest=dict(engine='h_pool', text='Per-task lifecycle log checked by exact rules over seeded owner programs with clear/stop/restart placed anywhere, under injected delays at the pool\'s synchronisation points; '
+                  'ASan build catches a worker touching a freed task.', note=POOL_NOTE, technique='runtime monitoring: per-task event log + conservation rules, interposer delays, ASan'))
+
+SPECS['C08'] = dict(
+    title='ThreadPool::stop() terminates, pool quiescent and restartable',
+    jobs=pool_jobs('C08', (('mon', 2400), ('asan', 400)), (('mon', 150000), ('asan', 15000), ('mon-ndebug', 30000))),
+    require={'any': {'stops': 15000, 'stopsWithWorkerInPreBlockWindow': 1000, 'restarts': 8000, 'stopsWithRunningTask': 1500}},
+    evidence=pool_evidence('C07 programs with stop storms (start k tasks; stop immediately / after the first task started / after drain) and the delay at cond_wait entry enabled (worker has evaluated its predicate and '
+                           'holds the queue mutex but has not blocked). Deciding monitors: quiescence oracle (owner in pthread_join, workers in cond_wait, nothing runnable = stop() can never return); after every '
+                           'stop(): getThreadCount()==0, isRunning()==false, no task running, every earlier task destroyed exactly once; a start() after stop() runs its task; getThreadCount() and the number of '
+                           'pthread_create calls per epoch never exceed the maximum. non-trivial = program with a stop and >=2 tasks; stopsWithWorkerInPreBlockWindow counts stop() calls that began while a worker '
+                           'sat in that window'),
+    assumptions=['one owner thread; non-expiring workers', 'termination is decided as absence of a reachable quiescent stuck state in the produced runs'],
+    manifest=dict(engine='h_pool', text='Deadlock/quiescence oracle for stop() plus exact post-conditions after every stop and restart, with delays injected exactly in the predicate-evaluated-but-not-blocked window.',
+                  note=POOL_NOTE, technique='runtime monitoring: quiescence (deadlock) oracle via pthread interposer + post-condition assertions'))
